@@ -31,7 +31,13 @@ def run(rep, tier):
     common.guarded(rep, "C11.3", c11_3, rep, ix)
     common.guarded(rep, "C02.5", c02_5, rep, ix)
     from . import c06, c05
+    # a for loop is part of what the script denotes: its operations are those of the unrolled loop (all of C06's clauses)
     common.guarded(rep, "C06.1", c06.c06_1, rep, ix, M.G)
+    common.guarded(rep, "C06.2", c06.c06_2, rep, ix)
+    common.guarded(rep, "C06.3", c06.c06_3, rep, ix, M.G)
+    from .c11 import c11_5
+    common.guarded(rep, "C06.4", c11_5, rep, ix, R="C06.4")
+    common.guarded(rep, "C06.5", c06.c06_5, rep, ix, M.G)
     c05.shared_tables(rep, ix, M.G)          # values come from tables that hold only this load's data
     # "arguments equal to the values of the written expressions": the evaluator's operator table (shared with C03)
     from . import c03
